@@ -44,6 +44,9 @@ class Scenario:
     time_budget_s: float = 240.0
     nlsat: bool = True  # try the non-incremental nlsat tactic first (pure real arithmetic); switch off for integer-heavy scenarios
     round_mode: str = "exact"  # "uf": roundings are uninterpreted functions with bracketing axioms (over-approximation)
+    relax_inputs: bool = False  # with relax_int: integer inputs lose integrality too (witness / replay values are floored)
+    relax_int: bool = False  # int()/floor//`//` as bracketed reals (over-approximation): proofs are sound, refutations and path
+    #                          witnesses are candidates only (a non-reproducing one is counted inconclusive, not an encoding error)
 
 
 # --------------------------------------------------------------------------------------------- context
@@ -80,7 +83,8 @@ class Ctx:
             import z3
             from . import symx
 
-            e = z3.Int(name) if kind == symx.INT else z3.Real(name)
+            # relaxed-integer scenarios may also drop the integrality of integer INPUTS (pure real arithmetic for nlsat)
+            e = z3.Int(name) if kind == symx.INT and not (symx.RELAX_INT and getattr(self.sc, "relax_inputs", False)) else z3.Real(name)
             v = symx.Sym(e, kind)
             if lo is not None:
                 self.ex.add(e > symx._lift(lo)[0] if lo_open else e >= symx._lift(lo)[0])
@@ -90,7 +94,7 @@ class Ctx:
             return v
         raw = self.values[name]
         if kind == "int":
-            v = int(raw)
+            v = int(raw) if "/" not in str(raw) else int(fractions.Fraction(raw))  # relaxed inputs: floor of a rational model value
         else:
             f = fractions.Fraction(raw)
             v = frac_to_dec(f) if kind == "dec" else float(f)
@@ -150,13 +154,18 @@ class Ctx:
                 raise Reject("assumption does not hold on concrete values")
 
     # -- obligations
-    def check(self, name, cond, detail=None):
+    def check(self, name, cond, detail=None, show=None):
         """obligation: under the current path condition `cond` must hold"""
         if self.sym:
             from . import symx
 
             status, model = self.ex.prove(cond)
             ob = {"name": name, "status": status}
+            if status == "refuted" and show and os.environ.get("VERIF_SHOW"):
+                try:
+                    ob["show"] = {k: str(float(symx.eval_any(model, v))) for k, v in show.items()}
+                except Exception as e:
+                    ob["show"] = f"<{e}>"
             if status == "refuted":
                 import z3
 
@@ -299,6 +308,7 @@ def run_symbolic(sc: Scenario, tier: str):
 
     shadow.install(sc.shadows)
     symx.ROUND_MODE = sc.round_mode
+    symx.RELAX_INT = sc.relax_int
     symx.NLSAT = "1" if sc.nlsat else "0"
     ex = symx.Explorer(max_paths=sc.max_paths, query_timeout_ms=sc.query_timeout_ms)
     ex.deadline = time.time() + sc.time_budget_s * (1 if tier == "quick" else 4)
